@@ -245,6 +245,19 @@ func (e *Engine) installIntrinsics() {
 		m.unwind = m.concInt(args[0], "vfUnwind")
 		return nil
 	}
+	// threads
+	in[hp+"vfGo"] = func(m *machine, caller *frame, _ *ssa.Function, args []value) value {
+		m.spawn(caller, args[0], nil, nil)
+		return nil
+	}
+	in[hp+"vfYield"] = func(m *machine, _ *frame, _ *ssa.Function, args []value) value {
+		m.visibleOp("yield")
+		return nil
+	}
+	in[hp+"vfJoin"] = func(m *machine, _ *frame, _ *ssa.Function, args []value) value {
+		m.joinAll()
+		return nil
+	}
 	in[hp+"vfHeldBy"] = func(m *machine, _ *frame, _ *ssa.Function, args []value) value {
 		return nil
 	}
@@ -253,12 +266,12 @@ func (e *Engine) installIntrinsics() {
 	in["(*sync.Mutex).Lock"] = func(m *machine, _ *frame, _ *ssa.Function, args []value) value {
 		p := args[0].(*value)
 		for m.mutexes[p] {
-			if !m.blockOn("lock", p) {
-				m.end("deadlock", "sync.Mutex.Lock on a mutex already held at "+m.where())
+			if !m.blockOn("mutex", func() bool { return !m.mutexes[p] }) {
+				m.end("deadlock", "sync.Mutex.Lock on a mutex that is never released at "+m.where())
 			}
 		}
 		m.mutexes[p] = true
-		m.visibleOp("lock")
+		m.hbAcquire(p)
 		return nil
 	}
 	in["(*sync.Mutex).Unlock"] = func(m *machine, _ *frame, _ *ssa.Function, args []value) value {
@@ -266,17 +279,26 @@ func (e *Engine) installIntrinsics() {
 		if !m.mutexes[p] {
 			panic(&targetPanic{v: m.rtErr("sync: unlock of unlocked mutex"), site: m.where()})
 		}
+		m.hbRelease(p)
 		delete(m.mutexes, p)
-		m.visibleOp("unlock")
 		return nil
 	}
 	in["(*sync.Once).Do"] = func(m *machine, caller *frame, _ *ssa.Function, args []value) value {
 		p := args[0].(*value)
-		if m.onces[p] {
+		for m.onceState[p] == 1 {
+			// another goroutine is inside f: Do returns only after f has returned
+			if !m.blockOn("once", func() bool { return m.onceState[p] != 1 }) {
+				m.end("deadlock", "sync.Once.Do never completes at "+m.where())
+			}
+		}
+		if m.onceState[p] == 2 {
+			m.hbAcquire(p)
 			return nil
 		}
-		m.onces[p] = true
+		m.onceState[p] = 1
 		m.callValue(caller, args[1], nil, nil)
+		m.onceState[p] = 2
+		m.hbRelease(p)
 		return nil
 	}
 	in["(*sync.Pool).Get"] = func(m *machine, caller *frame, _ *ssa.Function, args []value) value {
@@ -284,6 +306,7 @@ func (e *Engine) installIntrinsics() {
 		if l := m.pools[p]; len(l) > 0 {
 			v := l[len(l)-1]
 			m.pools[p] = l[:len(l)-1]
+			m.hbAcquire(p)
 			return v
 		}
 		// field New is the last field of sync.Pool
@@ -300,6 +323,7 @@ func (e *Engine) installIntrinsics() {
 			return nil
 		}
 		m.pools[p] = append(m.pools[p], args[1])
+		m.hbRelease(p)
 		return nil
 	}
 
@@ -488,6 +512,9 @@ func (e *Engine) installIntrinsics() {
 	}
 	in["fmt.Sprint"] = func(m *machine, _ *frame, fn *ssa.Function, args []value) value {
 		return strV{s: "<fmt.Sprint>"}
+	}
+	in["os.Getenv"] = func(m *machine, _ *frame, fn *ssa.Function, args []value) value {
+		return strV{}
 	}
 	in["runtime.Gosched"] = func(m *machine, _ *frame, fn *ssa.Function, args []value) value {
 		m.visibleOp("gosched")
